@@ -9,4 +9,4 @@ sh tools/seedverify.sh $WT $ID || exit 2
 mkdir -p seeded/$ID-r$R
 git -C $WT diff -- xgcm > seeded/$ID-r$R/patch.diff
 cp $WT/demo_$ID.py seeded/$ID-r$R/
-SEED_WORKTREE=$WT sh tools/seedcheck.sh $ID-r$R $ID "$@"
+VERIF_SHRINK_S=5 SEED_WORKTREE=$WT sh tools/seedcheck.sh $ID-r$R $ID "$@"
